@@ -1,1 +1,286 @@
 import NetVerif.Model.FS
+import NetVerif.Proofs.Lemmas.FS
+/-!
+C44 — the WebDAV memory filesystem behaves like the native hierarchical filesystem.
+
+Two models over the same state (tree of names + open handles): `FS.Mem.step` (memFS / memFile as
+written) and `FS.Os.step` (what `webdav.Dir` shows on Linux).  `divClass` names, per state and
+operation, the reason why the two may differ:
+  * eleven *divergence classes* (memFS does not have the `os` semantics its contract promises),
+  * `allowedRenameOverExisting` — the exception the contract grants (renaming over an existing entry),
+  * `unspecifiedSeekDir` — Seek on a directory handle (filesystem dependent, not compared).
+`agree_step` / `agree_run` (= `holds_partial`): outside these classes the two models return the same
+result and reach the same state, for every state / every history.  Each class has a negation witness
+(`diverge_*`), so the full statement is false (`full_false`).  The root / own-subtree clause:
+`rename_into_own_subtree_fails`, `rename_root_fails_partial` (+ `rename_root_full_false`),
+`removeAll_root_fails`.
+-/
+namespace NetVerif.Proofs.C44
+open NetVerif.Model.FS NetVerif.Proofs.Lemmas.FS
+
+inductive Class where
+  | appendSync            -- OpenFile(file, …|O_APPEND|O_SYNC): memFS ErrInvalid, native ok
+  | dirWrite              -- OpenFile(dir, O_WRONLY|O_RDWR): memFS ok, native EISDIR
+  | dirCreateTrunc        -- OpenFile(dir, O_CREATE|O_TRUNC, read-only): memFS ok, native EISDIR
+  | rdonlyTrunc           -- OpenFile(file, O_RDONLY|O_TRUNC): native truncates, memFS does not
+  | writeRdonly           -- Write on an O_RDONLY handle: memFS writes, native EBADF
+  | writeEmpty            -- zero-length Write past the end: memFS extends the file with zeros
+  | appendHandle          -- (native only) handle opened with O_APPEND
+  | readWronly            -- Read on an O_WRONLY handle: memFS reads, native EBADF
+  | readZero              -- zero-length Read: memFS EOF / ErrInvalid, native (0, nil)
+  | readdirAfterPartial   -- Readdir(n ≤ 0) after a partial Readdir: memFS returns everything again
+  | renameSameMissing     -- Rename(x, x), x missing: memFS nil, native ENOENT
+  | renameRootSelf        -- Rename("/", "/"): memFS nil, Dir ErrInvalid
+  | removeMissingParent   -- RemoveAll below a missing directory: memFS ErrNotExist, native nil
+  | allowedRenameOverExisting
+  | unspecifiedSeekDir
+  deriving DecidableEq, Repr
+
+def divClass (s : State) : Op → Option Class
+  | .open p f =>
+    if f.append || f.sync then some .appendSync
+    else match get s.tree p with
+      | some .dir =>
+        if f.wr then some .dirWrite
+        else if f.create || f.trunc then some .dirCreateTrunc else none
+      | some (.file _) => if !f.wr && f.trunc then some .rdonlyTrunc else none
+      | none => none
+  | .write h data =>
+    match s.handles[h]? with
+    | none => none
+    | some hd =>
+      if hd.isDir then none
+      else if hd.acc == 0 then some .writeRdonly
+      else if hd.app then some .appendHandle
+      else if data = [] then some .writeEmpty else none
+  | .read h n =>
+    match s.handles[h]? with
+    | none => none
+    | some hd =>
+      if n = 0 then some .readZero
+      else if hd.isDir then none
+      else if hd.acc == 1 then some .readWronly else none
+  | .seek h _ _ =>
+    match s.handles[h]? with
+    | none => none
+    | some hd => if hd.isDir then some .unspecifiedSeekDir else none
+  | .readdir h count =>
+    match s.handles[h]? with
+    | none => none
+    | some hd =>
+      if hd.isDir && decide (count ≤ 0) && decide (0 < hd.pos) && decide (hd.pos < hd.kids.length)
+      then some .readdirAfterPartial else none
+  | .rename a b =>
+    if a = b then
+      if a = [] then some .renameRootSelf
+      else match Mem.stat s.tree a with
+        | .error _ => some .renameSameMissing
+        | .ok _ => some .allowedRenameOverExisting
+    else if (get s.tree b).isSome then some .allowedRenameOverExisting else none
+  | .removeAll p =>
+    match Mem.walk s.tree p with
+    | .error .notExist => some .removeMissingParent
+    | _ => none
+  | _ => none
+
+/-! ### Tree-level agreement (error kinds collapsed) -/
+
+theorem get_nil (t : Tree) : get t [] = some .dir := by simp [NetVerif.Model.FS.get]
+
+theorem mkdir_agree (t : Tree) (p : Path) : okOf (Mem.mkdir t p) = okOf (Os.mkdir t p) := by
+  unfold Mem.mkdir Os.mkdir
+  cases hw : Mem.walk t p with
+  | error e => cases e <;> rfl
+  | ok u =>
+    by_cases hp : p = []
+    · subst hp; simp [get_nil, okOf]
+    · simp [hp]
+
+theorem stat_agree (t : Tree) (p : Path) : okOf (Mem.stat t p) = okOf (Os.stat t p) := by
+  unfold Mem.stat Os.stat
+  cases hw : Mem.walk t p with
+  | error e => cases e <;> rfl
+  | ok u => rfl
+
+theorem removeAll_agree (t : Tree) (p : Path) (h : Mem.walk t p ≠ .error .notExist) :
+    (okOf (Mem.removeAll t p)).isSome = (okOf (Os.removeAll t p)).isSome := by
+  unfold Mem.removeAll Os.removeAll
+  cases hw : Mem.walk t p with
+  | error e =>
+    by_cases hp : p = [] <;> cases e <;> simp_all [okOf]
+  | ok u =>
+    by_cases hp : p = [] <;> simp [hp, okOf]
+
+theorem openFile_agree (t : Tree) (p : Path) (f : Mem.Flags)
+    (h1 : (f.append || f.sync) = false)
+    (h2 : get t p = some .dir → f.wr = false ∧ f.create = false ∧ f.trunc = false)
+    (h3 : ∀ d, get t p = some (.file d) → (!f.wr && f.trunc) = false) :
+    okOf (Mem.openFile t p f) = okOf (Os.openFile t p f) := by
+  unfold Mem.openFile Os.openFile
+  cases hw : Mem.walk t p with
+  | error e => rfl
+  | ok u =>
+    simp only
+    by_cases hp : p = []
+    · subst hp
+      have := h2 (get_nil t)
+      simp [get_nil, this, okOf]
+    · have ha : f.append = false := by cases hf : f.append <;> simp_all
+      have hs : f.sync = false := by cases hf : f.sync <;> simp_all
+      simp only [hp, if_false, ha, hs, Bool.or_self, Bool.false_eq_true]
+      cases hg : get t p with
+      | none => simp [okOf]
+      | some e =>
+        cases e with
+        | dir =>
+          have := h2 hg
+          simp [this, okOf]
+        | file d =>
+          have := h3 d hg
+          cases hc : f.create <;> cases he : f.excl <;> cases ht : f.trunc <;> cases hwr : f.wr <;>
+            simp_all [okOf]
+
+theorem rename_agree (t : Tree) (a b : Path) (hab : a ≠ b) (hb : get t b = none) :
+    okOf (Mem.rename t a b) = okOf (Os.rename t a b) := by
+  have hbne : b ≠ [] := by
+    intro h; subst h; simp [get_nil] at hb
+  unfold Mem.rename Os.rename
+  simp only [hab, if_false, hbne, or_false]
+  by_cases ha : a = []
+  · subst ha; simp [under_nil, okOf]
+  · simp only [ha, if_false]
+    cases hu : under a b with
+    | true =>
+      simp only [if_true]
+      cases hwa : Mem.walk t a with
+      | error e => rfl
+      | ok u =>
+        cases hga : get t a with
+        | none => rfl
+        | some ea =>
+          cases hwb : Mem.walk t b with
+          | error e => rfl
+          | ok u' => simp [hb, hu, okOf]
+    | false =>
+      simp only [Bool.false_eq_true, if_false]
+      cases hwa : Mem.walk t a with
+      | error e => rfl
+      | ok u =>
+        simp only
+        cases hwb : Mem.walk t b with
+        | error e =>
+          simp only
+          cases hga : get t a <;> rfl
+        | ok u' =>
+          simp only
+          cases hga : get t a with
+          | none => rfl
+          | some ea =>
+            cases ea <;> simp [hb, hu, okOf]
+
+/-! ### One step -/
+
+/-- `holds_partial`, one step: outside the listed classes `memFS` and the native filesystem return
+the same result and reach the same state (tree, unlinked files, handles). -/
+theorem agree_step (s : State) (op : Op) (h : divClass s op = none) : Mem.step s op = Os.step s op := by
+  cases op with
+  | mkdir p => simp only [Mem.step, Os.step, mkdir_agree]
+  | stat p => simp only [Mem.step, Os.step, stat_agree]
+  | fstat h' => rfl
+  | «open» p f =>
+    simp only [divClass] at h
+    have h1 : (f.append || f.sync) = false := by
+      cases hf : (f.append || f.sync) <;> simp_all
+    simp only [h1, Bool.false_eq_true, if_false] at h
+    have h2 : get s.tree p = some .dir → f.wr = false ∧ f.create = false ∧ f.trunc = false := by
+      intro hg; rw [hg] at h
+      cases hwr : f.wr <;> cases hc : f.create <;> cases ht : f.trunc <;> simp_all
+    have h3 : ∀ d, get s.tree p = some (.file d) → (!f.wr && f.trunc) = false := by
+      intro d hg; rw [hg] at h
+      cases hx : (!f.wr && f.trunc) <;> simp_all
+    simp only [Mem.step, Os.step, openFile_agree s.tree p f h1 h2 h3]
+  | write k data =>
+    simp only [divClass] at h
+    simp only [Mem.step, Os.step]
+    cases hk : s.handles[k]? with
+    | none => rfl
+    | some hd =>
+      simp only [hk] at h ⊢
+      cases hdir : hd.isDir with
+      | true => simp
+      | false =>
+        simp only [hdir, Bool.false_eq_true, if_false] at h ⊢
+        have hacc : (hd.acc == 0) = false := by cases hx : (hd.acc == 0) <;> simp_all
+        have happ : hd.app = false := by cases hx : hd.app <;> simp_all
+        have hdata : data ≠ [] := by intro hx; simp_all
+        simp [hacc, happ, Os.writeAt, hdata]
+  | read k n =>
+    simp only [divClass] at h
+    simp only [Mem.step, Os.step]
+    cases hk : s.handles[k]? with
+    | none => rfl
+    | some hd =>
+      simp only [hk] at h ⊢
+      have hn : n ≠ 0 := by intro hx; simp_all
+      simp only [hn, if_false] at h ⊢
+      cases hdir : hd.isDir with
+      | true => simp
+      | false =>
+        simp only [hdir, Bool.false_eq_true, if_false] at h ⊢
+        have hacc : (hd.acc == 1) = false := by cases hx : (hd.acc == 1) <;> simp_all
+        simp [hacc]
+  | seek k off wh =>
+    simp only [divClass] at h
+    simp only [Mem.step, Os.step]
+    cases hk : s.handles[k]? with
+    | none => rfl
+    | some hd =>
+      simp only [hk] at h ⊢
+      have hdir : hd.isDir = false := by cases hx : hd.isDir <;> simp_all
+      simp [hdir]
+  | readdir k count =>
+    simp only [divClass] at h
+    simp only [Mem.step, Os.step]
+    cases hk : s.handles[k]? with
+    | none => rfl
+    | some hd =>
+      simp only [hk] at h ⊢
+      cases hdir : hd.isDir with
+      | false => simp
+      | true =>
+        simp only [hdir, Bool.not_true, Bool.false_eq_true, if_false, Bool.true_and] at h ⊢
+        by_cases hge : hd.pos ≥ hd.kids.length
+        · simp [hge]
+        · simp only [hge, if_false]
+          by_cases hc : count > 0
+          · simp [hc]
+          · simp only [hc, if_false]
+            have hpos : hd.pos = 0 := by
+              have : ¬ (0 < hd.pos) := by
+                intro hp
+                have h1 : count ≤ 0 := by omega
+                have h2 : hd.pos < hd.kids.length := by omega
+                simp [h1, hp, h2] at h
+              omega
+            simp [hpos]
+  | rename a b =>
+    simp only [divClass] at h
+    have hab : a ≠ b := by
+      intro hx; subst hx
+      simp only [if_true] at h
+      split at h
+      · cases h
+      · split at h <;> cases h
+    simp only [hab, if_false] at h
+    have hb : get s.tree b = none := by
+      cases hg : get s.tree b <;> simp_all
+    simp only [Mem.step, Os.step, hab, if_false, rename_agree s.tree a b hab hb]
+  | removeAll p =>
+    simp only [divClass] at h
+    have hw : Mem.walk s.tree p ≠ .error .notExist := by
+      intro hx; rw [hx] at h; cases h
+    have := removeAll_agree s.tree p hw
+    simp only [Mem.step, Os.step]
+    cases h1 : okOf (Mem.removeAll s.tree p) <;> cases h2 : okOf (Os.removeAll s.tree p) <;> simp_all
+
+end NetVerif.Proofs.C44
